@@ -5,7 +5,6 @@ import (
 	"sort"
 	"strings"
 	"testing"
-	"testing/synctest"
 	"time"
 
 	"github.com/volatiletech/authboss/v3"
@@ -73,7 +72,7 @@ func c16Exec(t *testing.T, plan Plan, keepTrace bool) *RunResult {
 					harnessPanic = r
 				}
 			}()
-			synctest.Test(t, func(t *testing.T) {
+			bubble(t, func(t *testing.T) {
 				w := NewWorld(t, plan.Cfg, plan.Seed, false)
 				defer w.Close()
 				defer func() { w.sched.afterRequest(w) }()
